@@ -803,6 +803,23 @@ def check_cfg(run, lst, ob):
                 if fn_ is not None and nxt_["id"] in bpos_:
                     proxied_call_sites.setdefault(fn_, set()).add(
                         bpos_[nxt_["id"]])
+    # ... and positions behind calls whose target block was deleted with
+    # retarget_to_proxy (the call then leads to the proxy; deleting the call
+    # afterwards no longer finds the callee whose returns lead behind it)
+    callee_proxied_sites = {}
+    blk_of_label_ = {l_: b_["id"] for s_ in case["secs"] for iv in s_["ivs"]
+                     for b_ in iv["blocks"] for l_ in b_["labels"]}
+    for s_ in case["secs"]:
+        blocks_ = [b for iv in s_["ivs"] for b in iv["blocks"]]
+        for b_, nxt_ in zip(blocks_, blocks_[1:]):
+            if b_["code"] and b_["items"] and vocab.VOCAB[case["isa"]][
+                    b_["items"][-1]["k"]]["kind"] == "call":
+                t_ = b_["items"][-1].get("t")
+                fn_ = input_fn_of_label.get(t_)
+                if fn_ is not None and nxt_["id"] in bpos_ and \
+                        blk_of_label_.get(t_) in lst.proxy_deleted:
+                    callee_proxied_sites.setdefault(fn_, set()).add(
+                        bpos_[nxt_["id"]])
     fn_orig_ret_left = {t.fn for t in instr_at.values()
                         if t.kind == "ret" and t.patch is None}
     missing_ft_src0 = {(m[0], m[1]) for m in missing if m[2] == "ft"}
@@ -920,6 +937,12 @@ def check_cfg(run, lst, ob):
                 # retarget_to_proxy: the callee keeps returning behind it
                 return (f"extra-site:{origin}-ret:no-call-there:"
                         "call-block-proxy-deleted")
+            if tok.fn is not None and tgt in callee_proxied_sites.get(
+                    tok.fn, ()):
+                # (F20) the block the call led to was deleted with
+                # retarget_to_proxy before the call itself was deleted
+                return (f"extra-site:{origin}-ret:no-call-there:"
+                        "called-block-proxy-deleted")
             return f"extra-site:{origin}-ret:no-call-there"
         if tok.fn is not None and any(
                 b in lst.proxy_deleted
